@@ -19,6 +19,9 @@ def sha(o):
     return hashlib.sha256(o).hexdigest()[:16]
 
 
+_LIVE = []      # live contexts; vlib.build extends their deadlines by the time a (re)build took
+
+
 class Ctx:
     def __init__(self, pid, tier, level, budget_s, replay=None):
         self.pid = pid
@@ -29,6 +32,7 @@ class Ctx:
         self.budget_s = float(os.environ.get("VERIF_BUDGET_S", budget_s))
         self.deadline = self.t0 + self.budget_s
         self.replay = replay
+        _LIVE.append(self)
         self.nviol = 0          # new (unlisted) violations
         self.known_hits = {}    # key -> count
         self.cov = {}
